@@ -19,7 +19,7 @@ RULE = ('seeded generator: circular / hexagon-like / segmented / off-centre / sp
 ASSUMPTIONS = ['modes linearly independent on the mask (condition number < 1e8), as the property requires']
 PLAN = {'quick': {'gen': 8}, 'thorough': {'gen': 16, 'tests': 1}}
 REQUIRED_BUCKETS = ['modes:contiguous', 'modes:noncontiguous', 'modes:unordered', 'modes:single-high', 'normalize:True',
-                    'normalize:False', 'coords:default', 'coords:supplied', 'mask:circular', 'mask:segmented', 'mask:offcentre', 'mask:weighted']
+                    'normalize:False', 'coords:default', 'coords:supplied', 'mask:circular', 'mask:segmented', 'mask:offcentre', 'mask:weighted', 'mask:subaperture', 'cond>1e4']
 REQUIRED_ANCHORS = ['anchor:zernike_fit', 'anchor:zernike_remove', 'anchor:zernike_compose', 'anchor:zernike_basis']
 REQUIRED_ORACLES = ['compose=own-basis', 'fit=coeffs', 'remove:residual-coeffs=0', 'remove=lstsq', 'remove:idempotent',
                     'remove:pure->0']
@@ -84,8 +84,19 @@ def workload(ctx, lentil):
         if mask.sum() < 30:
             ctx.skip('mask too small')
             continue
+        sub = (i % 4 == 3)
+        if sub:
+            # a small off-centre sub-aperture fitted in the coordinates of the full aperture: modes that are strongly
+            # correlated on the mask but still independent (condition number 1e3 .. 1e8)
+            shape = (int(rng.integers(24, 40)),) * 2
+            ii_, jj_ = np.indices(shape)
+            r0_, c0_ = shape[0] * rng.uniform(0.25, 0.75), shape[1] * rng.uniform(0.25, 0.75)
+            mask = np.hypot(ii_ - r0_, jj_ - c0_) <= rng.uniform(0.12, 0.2) * shape[0]
+            mk = 'subaperture'
         sel = int(rng.integers(0, 4))
-        if sel == 0:
+        if sub:
+            modes = list(range(1, int(rng.integers(8, 22)) + 1)); mb = 'modes:contiguous'
+        elif sel == 0:
             modes = list(range(1, int(rng.integers(1, 16)) + 1)); mb = 'modes:contiguous'
         elif sel == 1:
             modes = sorted(rng.choice(np.arange(1, 22), size=int(rng.integers(1, 9)), replace=False).tolist()); mb = 'modes:noncontiguous'
@@ -98,12 +109,12 @@ def workload(ctx, lentil):
         else:
             modes = [int(rng.integers(4, 37))]; mb = 'modes:single-high'
         normalize = bool(rng.random() < 0.5)
-        supplied = bool(rng.random() < 0.5)
+        supplied = bool(rng.random() < 0.5) or sub
         if supplied:
             ii, jj = np.indices(shape)
             r0, c0 = shape[0] / 2 + rng.uniform(-2, 2), shape[1] / 2 + rng.uniform(-2, 2)
             rad = np.hypot(ii - r0, jj - c0)
-            rho = rad / rad[mask].max()
+            rho = rad / (rad[mask].max() if not sub else 0.5 * shape[0])
             theta = np.arctan2(ii - r0, jj - c0) + rng.uniform(0, 2 * np.pi)
             kw = dict(rho=rho, theta=theta)
         else:
@@ -119,7 +130,8 @@ def workload(ctx, lentil):
         if not np.isfinite(cond) or cond >= 1e8:
             ctx.skip('basis not linearly independent on the mask (cond >= 1e8)')
             continue
-        ctx.case(desc, [mb, f'normalize:{normalize}', 'coords:supplied' if supplied else 'coords:default', f'mask:{mk}'])
+        ctx.case(desc, [mb, f'normalize:{normalize}', 'coords:supplied' if supplied else 'coords:default', f'mask:{mk}']
+                 + (['cond>1e4'] if cond > 1e4 else []))
         coeffs = rng.normal(size=len(modes)) * 1e-8
         opd_own = np.tensordot(coeffs, B, axes=1)
         # compose places coefficient k at Noll index k+1
